@@ -377,3 +377,37 @@ func VerifFormatFloat(f float64) string {
 	}
 	return fmt.Sprintf("%v", respDouble(f))
 }
+
+// ---- schedule and persistence points
+
+var verifPointFn atomic.Value   // func(name string, clientId int64)
+var verifPersistFn atomic.Value // func(stage, tmpName, fileName string)
+
+// VerifSetPointHook installs a callback run at every schedule point of the block/wake loop (it may
+// block to park that client); nil removes it.
+func VerifSetPointHook(fn func(name string, clientId int64)) {
+	if fn == nil {
+		fn = func(string, int64) {}
+	}
+	verifPointFn.Store(fn)
+}
+
+// VerifSetPersistHook installs a callback run at every stage of writing a snapshot file.
+func VerifSetPersistHook(fn func(stage, tmpName, fileName string)) {
+	if fn == nil {
+		fn = func(string, string, string) {}
+	}
+	verifPersistFn.Store(fn)
+}
+
+func verifPoint(name string, cs *clientState) {
+	if fn, ok := verifPointFn.Load().(func(string, int64)); ok {
+		fn(name, cs.id)
+	}
+}
+
+func verifPersistPoint(stage string, tmpName string, fileName string) {
+	if fn, ok := verifPersistFn.Load().(func(string, string, string)); ok {
+		fn(stage, tmpName, fileName)
+	}
+}
